@@ -68,6 +68,16 @@ def gen():
     o.append("inductive WrapType where")
     o += [f"  | {n}" for n in wt]
     o += ["deriving Repr, DecidableEq, Inhabited", ""]
+    LBL = "crates/aranya-policy-module/src/label.rs"
+    lsrc = read(LBL)
+    lt = enum_variants(lsrc, "LabelType", LBL)
+    for n, raw in lt:
+        if raw.strip() != n:
+            raise Fail(f"{LBL}: enum LabelType: variant `{raw}` is not a unit variant")
+    o.append(f"/-- `LabelType` in {LBL} -/")
+    o.append("inductive LabelType where")
+    o += [f"  | {n}" for n, _ in lt]
+    o += ["deriving Repr, DecidableEq, Inhabited", ""]
     o.append(f"/-- `Target` in {INS} -/")
     o.append("inductive Target where")
     for n, raw in tg:
